@@ -45,7 +45,7 @@ OPTS = {"container_kinds": KINDS, "transforms": True, "flavours": ("lambda", "de
 
 
 def plan(tier):
-    return 700 if tier == "quick" else 14000
+    return 1400 if tier == "quick" else 14000
 
 
 def budget(tier):
